@@ -1305,12 +1305,27 @@ func stripSensitiveHeadersOnRedirect(req *Request, initialHost []byte, redirectU
 		return
 	}
 
-	req.Header.Del(HeaderAuthorization)
-	req.Header.Del(HeaderCookie)
-	req.Header.Del(HeaderCookie2) // Match net/http behavior.
-	req.Header.Del(HeaderProxyAuthenticate)
-	req.Header.Del(HeaderProxyAuthorization)
-	req.Header.Del(HeaderWWWAuthenticate)
+	delHeaderIgnoreCase(&req.Header, HeaderAuthorization)
+	delHeaderIgnoreCase(&req.Header, HeaderCookie)
+	delHeaderIgnoreCase(&req.Header, HeaderCookie2) // Match net/http behavior.
+	delHeaderIgnoreCase(&req.Header, HeaderProxyAuthenticate)
+	delHeaderIgnoreCase(&req.Header, HeaderProxyAuthorization)
+	delHeaderIgnoreCase(&req.Header, HeaderWWWAuthenticate)
+}
+
+// delHeaderIgnoreCase deletes the header with the given key whatever its
+// spelling. RequestHeader.Del matches the stored spelling only, which misses
+// e.g. "authorization" when header name normalizing is disabled, while the
+// receiving server treats header names case-insensitively.
+func delHeaderIgnoreCase(h *RequestHeader, key string) {
+	h.Del(key)
+	for i := 0; i < len(h.h); {
+		if caseInsensitiveCompare(h.h[i].key, s2b(key)) {
+			h.h = delAllArgsStable(h.h, string(h.h[i].key))
+			continue
+		}
+		i++
+	}
 }
 
 // shouldStripSensitiveHeadersOnRedirect defines the trust boundary for
